@@ -26,32 +26,43 @@ def specAllow (allow : List String) : List String :=
 
 def isEmptyStream {μ} (s : Stream μ) : Bool := s.msgs.isEmpty
 
-/-- the streams the server actually served: the first `n` of the script, padded with the
-"break at once" stream beyond the script -/
-def opened {μ} (script : List (Stream μ)) (n : Nat) : List (Stream μ) :=
-  script.take n ++ List.replicate (n - script.length) { msgs := [], fin := .err }
+def emptyErr {μ} : Stream μ := { msgs := [], fin := .err }
+
+/-- the `n` streams the server actually served: the script, continued by "break at once" streams -/
+def openedFrom {μ} (rest : List (Stream μ)) (n : Nat) : List (Stream μ) :=
+  rest.take n ++ List.replicate (n - rest.length) emptyErr
+
+/-- never more than `max + 1` consecutive re-opened streams without a message (`n` = run so far) -/
+def segOk {μ} (max : Nat) : Nat → List (Stream μ) → Bool
+  | _, [] => true
+  | n, s :: r => if isEmptyStream s then decide (n + 1 ≤ max + 1) && segOk max (n + 1) r else segOk max 0 r
+
+/-- number of message-less streams at the end of the list (`n` = count carried in) -/
+def cnt {μ} : Nat → List (Stream μ) → Nat
+  | n, [] => n
+  | n, s :: r => if isEmptyStream s then cnt (n + 1) r else cnt 0 r
 
 /-- clauses of C36 violated by an observed run of a stream call.
-`seen` = request payloads that reached the server, `seenAtCancel` = how many had when the caller cancelled -/
+`seen` = request payloads that reached the server; `cancelBlocked` = the caller cancelled while `Recv`
+was blocked; `seenAtCancel` = how many requests the server had seen when the caller cancelled -/
 def specStream {μ ρ} [DecidableEq μ] [DecidableEq ρ] (watch : Bool) (max : Nat) (cancelAfter : Option Nat)
-    (script : List (Stream μ)) (req : ρ) (delivered : List μ) (seen : List ρ) (seenAtCancel : Nat) : List String :=
+    (cancelBlocked : Bool) (script : List (Stream μ)) (req : ρ) (delivered : List μ) (seen : List ρ)
+    (seenAtCancel : Nat) : List String :=
   -- the caller cancels only once `n` messages arrived: a run that ended earlier was never cancelled
   let cancelAfter := cancelAfter.filter (fun n => n ≤ delivered.length)
-  let ops := opened script seen.length
-  let all := ops.flatMap (·.msgs)
+  let cancelled := cancelAfter.isSome || cancelBlocked
+  let reopened := openedFrom script.tail (seen.length - 1)
+  let all := (openedFrom script seen.length).flatMap (·.msgs)
   (if seen.all (· == req) then [] else ["request-not-resent"]) ++
   (if seen.length ≥ 1 then [] else ["no-request"]) ++
   (match cancelAfter with
    | none => if delivered == all then [] else ["messages-lost-or-reordered"]
-   | some n => (if delivered == all.take n && n ≤ all.length then [] else ["messages-lost-or-reordered"]) ++
-               (if seen.length == seenAtCancel then [] else ["retried-after-cancel"])) ++
+   | some n => if delivered == all.take n && n ≤ all.length then [] else ["messages-lost-or-reordered"]) ++
+  (if cancelled && seen.length != seenAtCancel then ["retried-after-cancel"] else []) ++
   (if watch then
-     -- never more than max+1 consecutive re-opened streams without a message …
-     (if (List.range (ops.length - 1)).all (fun i => ((ops.drop (i + 1)).take (max + 2)).length < max + 2 ||
-            !((ops.drop (i + 1)).take (max + 2)).all isEmptyStream) then [] else ["over-budget"]) ++
-     -- … and the client gives up only after max+1 of them
-     (if cancelAfter.isNone && !(seen.length ≥ max + 2 && ((ops.drop (ops.length - (max + 1))).all isEmptyStream))
-      then ["gave-up-early"] else [])
+     (if segOk max 0 reopened then [] else ["over-budget"]) ++
+     -- the client gives up only after max+1 message-less re-opens
+     (if !cancelled && cnt 0 reopened != max + 1 then ["gave-up-early"] else [])
    else if seen.length == 1 then [] else ["non-watch-retried"])
 
 /-- clauses violated by an observed unary call: `attempts` reached the server; `prodMax` is the
